@@ -154,7 +154,7 @@ CODEC_ASSUME = ["schemas enter as the generator's intermediate JSON (the Java sc
 CODEC_TRUST = ["reflection bridge mc/bind (checked for identity AV->Go->AV on every case)", "reference codecs mc/ref", "schema universes mc/schema"]
 
 
-def codec_check(prop, part, level, rule, assumptions=(), gens=("v2", "root"), deadline_q=900, deadline_t=3300, universes=None, maprot=False):
+def codec_check(prop, part, level, rule, assumptions=(), gens=("v2", "root"), deadline_q=900, deadline_t=3300, universes=None, maprot=False, genrots=(None,)):
     def fn(sc, tier, replay, t0):
         universe = "codec-full" if tier == "thorough" else "codec-quick"
         if universes:
@@ -166,11 +166,14 @@ def codec_check(prop, part, level, rule, assumptions=(), gens=("v2", "root"), de
             gl = [doc.get("gen", "v2")]
             universe = doc.get("universe", universe)
         for gen in gl:
+          # genrots: the bindings are generated once per listed map-iteration start of the GENERATOR process; the
+          # cross-process digests then also span bindings from different generator runs
+          for gr in (genrots if not replay else genrots[:1]):
             ov = None
             if maprot:
                 import c12
                 ov = c12.maprot_overlay(sc)
-            binary = D.build_with_bindings(sc, gen, "codec", universe, overlay=ov)
+            binary = D.build_with_bindings(sc, gen, "codec", universe, overlay=ov, genrot=gr)
             env = {"VERIF_UNIVERSE": universe}
             if replay:
                 p = subprocess.run([binary, "-gen", gen, "-replay", replay], env=dict(D.goenv(), **env))
@@ -179,7 +182,7 @@ def codec_check(prop, part, level, rule, assumptions=(), gens=("v2", "root"), de
             if maprot:
                 # one process per map-iteration start: every start bucket / slot of maps up to 2 (64: 8) buckets
                 nsh = 64 if tier == "thorough" else 16
-            reports += D.run_shards(binary, gen, tier, nsh, os.path.join(sc.dir, "out"),
+            reports += D.run_shards(binary, gen, tier, nsh, os.path.join(sc.dir, "out" if gr is None else "out-genrot%d" % gr),
                                     extra_args=["-part", part], env=env,
                                     env_fn=(lambda i: {"VERIF_MAPROT": str(i)}) if maprot else None,
                                     deadline=(deadline_t if tier == "thorough" else deadline_q))
@@ -387,7 +390,7 @@ def C17(sc, tier, replay, t0):
         extra_cov={"race_pass": race_runs})
 
 
-C09 = codec_check("C09", "C09", "model_checking", gens=("v2",), maprot=True,
+C09 = codec_check("C09", "C09", "model_checking", gens=("v2",), maprot=True, genrots=(1, 6),
     rule="exhaustive at the seam where order enters: every permutation of keyWriter call order (n<=5, thorough 6) for WriteMap on all five writers x 4 key sets (prefix pairs, case, non-ASCII, empty, reserved characters) x {flat, nested} x {no exclusion, one key excluded}; every permutation of parameter order through BuildQueryParams; every insertion order of keys into string / int64 / bytes / hash-colliding key sets; outputs must be byte-identical across orders with keys, parameters and ids ascending; Equal values (copies, map-insertion-order rebuilds) must encode identically in all 5 formats, also after a warm-up of unrelated encodes; the whole pool of map-bearing values is encoded in one process per Go map-iteration start (runtime overlay; 16 starts quick, 64 thorough) and the digests must agree; supplementary: 64 re-encodings from freshly built maps inside each process; states = key sets / values, transitions = encode calls",
     assumptions=["Go map iteration order is owned through a runtime overlay (lib/c12.py maprot_overlay): one process per iteration start VERIF_MAPROT with fixed hash seeds; one global start per process is enumerated, not independent starts per iteration",
                  "v2 only, as the property states"])
